@@ -45,7 +45,7 @@ type Transfer struct {
 	// Protect, if non-nil, reports whether the destination entry with the
 	// specified name is excluded by the user's filter rules: --delete leaves
 	// such entries alone.
-	Protect func(name string) bool
+	Protect func(name string, isDir bool) bool
 
 	// state
 	Conn            *rsyncwire.Conn
